@@ -88,7 +88,7 @@ func (rb *rbuilder) plan(term string, t types.Type, depth int, label string) *rn
 		if u.Len() <= 64 {
 			n.kind = "array"
 			for k := int64(0); k < u.Len(); k++ {
-				n.elems = append(n.elems, rb.plan(fmt.Sprintf("(select %s %d)", term, k), u.Elem(), depth+1, fmt.Sprintf("%s[%d]", label, k)))
+				n.elems = append(n.elems, rb.plan(s.arrSelect(u, term, fmt.Sprint(k)), u.Elem(), depth+1, fmt.Sprintf("%s[%d]", label, k)))
 			}
 		}
 	case *types.Pointer:
